@@ -147,8 +147,8 @@ WithForged(D, i, r) == IF r.cfg = "ok" /\ r.class \in {"accept", "quarantine"}
 (*                                   SPF                                   *)
 SpfResults == {"pass", "none", "neutral", "fail", "softfail", "temperror", "permerror"}
 (* DNS situations that yield each result (RFC 7208 4.3-4.7, 5) *)
-HowOf(r) == CASE r = "pass"      -> {"ip", "all"}
-              [] r = "fail"      -> {"all", "ipmiss"}
+HowOf(r) == CASE r = "pass"      -> {"ip", "all", "a", "mx", "include"}
+              [] r = "fail"      -> {"all", "ipmiss", "redirect"}
               [] r = "softfail"  -> {"all"}
               [] r = "neutral"   -> {"all", "fallthrough"}
               [] r = "none"      -> {"nxdomain", "notxt", "othertxt"}
@@ -233,8 +233,10 @@ RuleSpf(D, i) == SpfOwn(D, i)
 (*   temp      the key lookup fails temporarily (SERVFAIL)                  *)
 (*   malformed the field is not a tag list                                  *)
 (*   lentag    carries l= (signs a body subset)                             *)
+(*   sha1      a=rsa-sha1 (RFC 8301: must not be accepted)                  *)
+(*   wrongi    i= names a domain that is not d= or a subdomain of it        *)
 KindSeq == <<"pass", "passlc", "ed", "nosubj", "noto", "badbody", "badsig", "nokey", "revoked",
-             "shortkey", "expired", "temp", "malformed", "lentag">>
+             "shortkey", "expired", "temp", "malformed", "lentag", "sha1", "wrongi">>
 Kinds == Range(KindSeq)
 NKinds == Len(KindSeq)
 SigDoms == <<"signer.example", "other.example", "signer.example">>   \* by position
@@ -267,7 +269,8 @@ DkimValue(k, r) == CASE Good(k, r) -> "pass"
                      [] OTHER -> "permerror"
 DkimEntry(s, r) == [m |-> "dkim", v |-> DkimValue(s.k, r),
                     a |-> IF s.k = "malformed" THEN "" ELSE s.d,
-                    b |-> IF s.k = "malformed" THEN "" ELSE "@" \o s.d]
+                    b |-> CASE s.k = "malformed" -> "" [] s.k = "wrongi" -> "@elsewhere.example"
+                            [] OTHER -> "@" \o s.d]
 DkimAr(i) == IF i.sigs = <<>> THEN <<[m |-> "dkim", v |-> "none", a |-> "", b |-> ""]>>
              ELSE [n \in DOMAIN i.sigs |-> DkimEntry(i.sigs[n], i.req)]
 
@@ -354,6 +357,9 @@ IsJoint(i) == i.tab = "joint"
 SpfDecided(i) == IsSpf(i) /\ ~SpfSkip(i) /\ i.res # "pass" /\ ~(~Early(i) /\ i.dm \in FreeDm)
 
 P_ConfigAccepted(i, o) == o.cfg = "ok"          \* every row is a documented configuration
+(* the message is delivered (flagged or not) or refused with a reply whose  *)
+(* class is coherent; it is not lost, and the pipeline does not crash       *)
+P_Answered(i, o) == o.class \in {"accept", "quarantine"} \cup Rejects
 P_SpfPassNoAction(i, o) == (IsSpf(i) /\ i.res = "pass") => o.class = "accept"
 P_SpfNoIpNoAction(i, o) == (IsSpf(i) /\ SpfSkip(i)) => o.class = "accept"
 (* the configured action (documented default when the directive is absent), exactly *)
@@ -374,7 +380,8 @@ P_SpfReported(i, o) == (IsSpf(i) /\ ~SpfSkip(i) /\ Delivered(o)) =>
                           LET es == ArOf(o, "spf") IN
                             /\ Len(es) = 1
                             /\ es[1].v = i.res
-                            /\ IF i.sender = "null" THEN es[1].a = "" /\ es[1].b = Helo
+                            /\ IF i.sender = "null"    \* HELO, or the mailbox RFC 7208 2.4 derives from it
+                               THEN (es[1].a = "" /\ es[1].b = Helo) \/ es[1].a = Helo
                                ELSE es[1].a = MfNorm(i.sender)
 
 P_DkimNoSig(i, o) == (IsDkim(i) /\ i.sigs = <<>>) =>
@@ -430,12 +437,13 @@ P_ResultsOnlyOwn(i, o) == Delivered(o) =>
                             /\ \A n \in DOMAIN o.ar : o.ar[n].m \in {"spf", "dkim", "dmarc"}
                             /\ \A m \in {"spf", "dkim", "dmarc"} : CountM(o.ar, m) = CountM(ReportAr(i), m)
 
-PredNames == {"ConfigAccepted", "ResultsOnlyOwn", "SpfPassNoAction", "SpfNoIpNoAction", "SpfAction", "SpfDeferred",
+PredNames == {"ConfigAccepted", "Answered", "ResultsOnlyOwn", "SpfPassNoAction", "SpfNoIpNoAction", "SpfAction", "SpfDeferred",
               "SpfFreeDm", "SpfStage", "SpfReported",
               "DkimNoSig", "DkimTempClosed", "DkimGood", "DkimBroken", "DkimFailOpen", "DkimStage",
               "DkimReported", "JointVerdict", "JointDeferredEnforced", "JointReported"}
 Holds(n, i, o) ==
   CASE n = "ConfigAccepted"   -> P_ConfigAccepted(i, o)
+    [] n = "Answered"         -> P_Answered(i, o)
     [] n = "ResultsOnlyOwn"   -> P_ResultsOnlyOwn(i, o)
     [] n = "SpfPassNoAction"  -> P_SpfPassNoAction(i, o)
     [] n = "SpfNoIpNoAction"  -> P_SpfNoIpNoAction(i, o)
@@ -502,8 +510,9 @@ DkimRowF(sub, sigs, act, fo, req, subset, forged) ==
 DkimRow(sub, sigs, act, fo, req, subset) == DkimRowF(sub, sigs, act, fo, req, subset, "none")
 (* (j) Authentication-Results fields supplied by the client *)
 InSpfForged ==
-  \E res \in {"pass", "fail"}, early \in {"no", "yes"}, sender \in {"plain", "null"}, f \in ForgedKinds :
-    in = SpfRowF("forged", <<res, "all">>, "quarantine", early, sender, "norecord", "global", "tcp4", f)
+  \E res \in {"pass", "fail"}, early \in {"no", "yes"}, sender \in {"plain", "null"}, f \in ForgedKinds,
+     conn \in {"tcp4", "unix"} :        \* "unix": the check reports nothing, the forged field would stand alone
+    in = SpfRowF("forged", <<res, "all">>, "quarantine", early, sender, "norecord", "global", conn, f)
 SigsOf(ks) == [n \in DOMAIN ks |-> [k |-> KindSeq[ks[n]], d |-> SigDoms[n]]]
 FailOpens == {"default", "no", "yes"}
 Reqs == {"default", "from", "fst"}
@@ -528,7 +537,7 @@ InDkimForged ==
     in = DkimRowF("forged", SigsOf(ks), "quarantine", "default", "default", "absent", f)
 (* (h) the configuration block of dkim.md as printed there *)
 InDkimDoc ==
-  \E ks \in {<<>>, <<1>>, <<NKinds>>, <<6>>}, act \in {"default", "reject"} :
+  \E ks \in {<<>>, <<1>>, <<14>>, <<6>>}, act \in {"default", "reject"} :
     in = DkimRow("doc", SigsOf(ks), act, "no", "default", DocSubset)
 
 (* (i) the composition *)
@@ -571,12 +580,18 @@ DkimCfg(i) ==
      \o mine \o other
      \o (IF i.failopen = "default" THEN <<>> ELSE <<Dir("fail_open", <<i.failopen>>)>>)
 
-Z(name, err, txt) == [name |-> name, err |-> err, txt |-> txt]
+Z(name, err, txt) == [name |-> name, err |-> err, txt |-> txt, a |-> <<>>, mx |-> <<>>]
+ZA(name, ips)     == [name |-> name, err |-> "", txt |-> <<>>, a |-> ips, mx |-> <<>>]
+ZMX(name, hosts)  == [name |-> name, err |-> "", txt |-> <<>>, a |-> <<>>, mx |-> hosts]
 SpfTxt(res, how, conn) ==
   CASE res = "pass" /\ how = "ip" -> (IF conn = "tcp6" THEN <<"v=spf1 ip6:2001:db8::10 -all">>
                                       ELSE <<"v=spf1 ip4:192.0.2.10 -all">>)
+    [] res = "pass" /\ how = "a"  -> <<"v=spf1 a:out.example -all">>
+    [] res = "pass" /\ how = "mx" -> <<"v=spf1 mx:mxdom.example -all">>
+    [] res = "pass" /\ how = "include" -> <<"v=spf1 include:incpass.example -all">>
     [] res = "pass"     -> <<"v=spf1 +all">>
     [] res = "fail" /\ how = "ipmiss" -> <<"v=spf1 ip4:198.51.100.1 -all">>
+    [] res = "fail" /\ how = "redirect" -> <<"v=spf1 redirect=redir.example">>
     [] res = "fail"     -> <<"v=spf1 -all">>
     [] res = "softfail" -> <<"v=spf1 ~all">>
     [] res = "neutral" /\ how = "fallthrough" -> <<"v=spf1 ip4:198.51.100.1">>
@@ -595,6 +610,10 @@ SpfZone(i) ==
      ELSE IF i.res = "temperror" /\ i.how = "servfail" THEN <<Z(id, "servfail", <<>>)>>
      ELSE <<Z(id, "", SpfTxt(i.res, i.how, i.conn))>>)
     \o (IF i.res = "temperror" /\ i.how = "include" THEN <<Z("inc.example", "servfail", <<>>)>> ELSE <<>>)
+    \o (IF i.res = "pass" /\ i.how \in {"a", "mx"} THEN <<ZA("out.example", <<"192.0.2.10">>)>> ELSE <<>>)
+    \o (IF i.res = "pass" /\ i.how = "mx" THEN <<ZMX("mxdom.example", <<"out.example">>)>> ELSE <<>>)
+    \o (IF i.res = "pass" /\ i.how = "include" THEN <<Z("incpass.example", "", <<"v=spf1 +all">>)>> ELSE <<>>)
+    \o (IF i.res = "fail" /\ i.how = "redirect" THEN <<Z("redir.example", "", <<"v=spf1 -all">>)>> ELSE <<>>)
     \o (IF i.sender = "null" THEN <<>>
         ELSE <<Z(Helo, "", IF i.res = "pass" THEN <<"v=spf1 -all">> ELSE <<"v=spf1 +all">>)>>)
 DmarcZone(dm) ==
